@@ -61,15 +61,21 @@ func ScriptFromHist(line string, cfg Cfg, typeMap map[string]string) (Script, er
 	if err := json.Unmarshal([]byte(line), &inner); err != nil {
 		return Script{}, fmt.Errorf("hist line is not a JSON string: %w", err)
 	}
-	var hist []struct {
-		G int   `json:"g"`
-		O rawOp `json:"o"`
+	var rec struct {
+		Cfg  *Cfg `json:"cfg"`
+		Hist []struct {
+			G int   `json:"g"`
+			O rawOp `json:"o"`
+		} `json:"hist"`
 	}
-	if err := json.Unmarshal([]byte(inner), &hist); err != nil {
+	if err := json.Unmarshal([]byte(inner), &rec); err != nil {
 		return Script{}, err
 	}
 	s := Script{Cfg: cfg}
-	for _, h := range hist {
+	if rec.Cfg != nil {
+		s.Cfg = *rec.Cfg
+	}
+	for _, h := range rec.Hist {
 		for len(s.Procs) < h.G {
 			s.Procs = append(s.Procs, nil)
 		}
@@ -90,7 +96,7 @@ func Generate(run *core.Run, module, config string, num, depth int, cfg Cfg, typ
 	var out []Script
 	seen := map[string]bool{}
 	for _, l := range res.Printed {
-		if len(l) < 2 || l[0] != '"' {
+		if len(l) < 3 || l[0] != '"' || l[1] != '{' {
 			continue
 		}
 		s, err := ScriptFromHist(l, cfg, typeMap)
